@@ -171,7 +171,7 @@ fn c02_q_expiry_and_close() {
 #[cfg_attr(kani, kani::unwind(42))]
 #[cfg_attr(kani, kani::stub(embassy_time::Instant::now, crate::verif_support::stub_instant_now))]
 #[cfg_attr(not(kani), test)]
-fn c02_x_window_lifecycle_4ops() {
+fn c02_t_window_lifecycle_4ops() {
     let mut p = Pase::new();
     let mut now = any_u64();
     assume(now < (1u64 << 60));
